@@ -90,6 +90,10 @@ func FlushFromOverrideDefaultNI(c *fluent.GRIBIClient, wantACK fluent.Programmin
 // default NI using the Get RPC.
 func FlushFromNonMasterDefaultNI(c *fluent.GRIBIClient, wantACK fluent.ProgrammingResult, t testing.TB, _ ...TestOpt) {
 	defer flushServer(c, t)
+	// The Flush below is sent with an election ID one lower than the ID that the entries
+	// are programmed with. Since 0 is not a valid election ID, ensure that the entries
+	// are programmed with an ID of at least 2 (the suite starts at 1 by default).
+	electionID.Inc()
 	addFlushEntriesToNI(c, defaultNetworkInstanceName, wantACK, t)
 
 	// addFlushEntriesToNI increments the election ID so to check with the current value,
